@@ -44,6 +44,14 @@ func main() {
 			fmt.Fprintln(os.Stderr, "harness:", err)
 			os.Exit(1)
 		}
+	case "pureeval":
+		if len(os.Args) != 3 {
+			usage()
+		}
+		if err := pureEval(os.Args[2]); err != nil {
+			fmt.Fprintln(os.Stderr, "harness:", err)
+			os.Exit(1)
+		}
 	case "pure":
 		if err := pureMain(os.Args[2:]); err != nil {
 			fmt.Fprintln(os.Stderr, "harness:", err)
